@@ -21,6 +21,7 @@ CONSTANTS NReq,            \* requests per behaviour
           FixOrder,        \* Respond unlinks the request only after queueing its reply (fix 8)
           FixChain,        \* flush chains are linked through a field of their own (fix 9a)
           FixBound,        \* the fid table's own reference is explicit (bind/unbind); close drops it instead of destroying (fix 12c)
+          FixPending,      \* a fid is invisible to FidGet from FidNew until the creating request succeeded (bind)
           FixClose,        \* Respond does not block on reqout after close; close drops table refs (fix 12)
           SharedTags,      \* client may reuse an outstanding tag for non-flush requests
           HasFlushOp,      \* implementation provides FlushOp
@@ -182,6 +183,15 @@ WRet(r) ==
   /\ UNCHANGED <<nreq, rq, reqs, stack, act, fidref, spc, scur, outq, wire, impl, fc, pool, nfc, cstate, cpc, fdir, sstop, bound>>
   /\ UNCHANGED ghosts
 
+(* FidGet: a fid under construction (FidNew done, creating Tattach/Twalk not post-processed yet) is
+   not found.  Derived: the creator still holds it (hfid/hnew are reset by RPost) and it was never bound. *)
+Pending(f) ==
+  /\ FixPending /\ fidref[f] > 0 /\ ~bound[f] /\ creator[f] # 0
+  /\ LET c == creator[f] IN
+       \/ (rq[c].kind = "Attach" /\ rq[c].hfid = f)
+       \/ (rq[c].kind = "Walk" /\ rq[c].hnew = f /\ rq[c].hfid # f)
+Known(f) == fidref[f] > 0 /\ ~Pending(f)
+
 Forward(r, fr, hf, hn, cr, fd) ==  \* the SrvReqOps method is entered; it parks in the scripted implementation
   /\ fidref' = fr /\ fdir' = fd
   /\ bound' = [f \in Fids |-> IF fidref[f] = 0 /\ fr[f] > 0 THEN FALSE ELSE bound[f]]   \* FidNew: a fresh, unbound fid
@@ -205,13 +215,13 @@ WDispatch(r) ==
   /\ wpc[r] = "dispatch" /\ AtBase(r)
   /\ LET k == rq[r].kind  f == rq[r].fid  nf == rq[r].newfid IN
      CASE k \in {"Stat", "Clunk"} ->
-            IF fidref[f] = 0 THEN Refuse(r, fidref, NoFid)
+            IF ~Known(f) THEN Refuse(r, fidref, NoFid)
             ELSE Forward(r, [fidref EXCEPT ![f] = @ + 1], f, NoFid, creator, fdir)
        [] k = "Attach" ->          \* FidNew: a fresh SrvFid has type 0 until attachPost
             IF fidref[f] # 0 THEN Refuse(r, fidref, NoFid)
             ELSE Forward(r, [fidref EXCEPT ![f] = 1], f, NoFid, [creator EXCEPT ![f] = r], [fdir EXCEPT ![f] = FALSE])
        [] k = "Walk" ->            \* the harness walks by name, so the source must be a directory
-            IF fidref[f] = 0 THEN Refuse(r, fidref, NoFid)
+            IF ~Known(f) THEN Refuse(r, fidref, NoFid)
             ELSE IF ~fdir[f] THEN Refuse(r, [fidref EXCEPT ![f] = @ + 1], f)
             ELSE IF nf = f THEN Forward(r, [fidref EXCEPT ![f] = @ + 2], f, f, creator, fdir)
             ELSE IF fidref[nf] # 0 THEN Refuse(r, [fidref EXCEPT ![f] = @ + 1], f)
